@@ -436,7 +436,18 @@ pub fn mutate(tx: &STx, ws: &[Option<Tpl>], m: &[&str]) -> Option<(STx, Vec<Opti
             o.spk = mod_spk(&o.spk, field, v);
         }
         ["wsdrop", i] => { let i = p(i)? as usize; if i < ws.len() { ws[i] = None } }
+        ["retpl", i, kind] => {
+            let i = p(i)? as usize;
+            let o = tx.outs.get_mut(i)?;
+            let w = ws.get_mut(i)?;
+            match *kind {
+                "remoteA" => { o.spk = Spk::Wsh(Tpl::RemoteA(5)); *w = Some(Tpl::RemoteA(5)); }
+                "wpkh" => { o.spk = Spk::Wpkh(5); *w = None; }
+                _ => return None,
+            }
+        }
         ["wslen"] => { ws.pop(); }
+        ["wsadd"] => { ws.push(Some(Tpl::Unknown(1))); }
         _ => return None,
     }
     Some((tx, ws))
